@@ -9,5 +9,6 @@ CONSTANTS
   Sources <- MC_ScriptOnly
   ScriptMsgs <- MC_ScriptMsgs
   MaxScript = 3
+  Flaws <- MC_NoFlaws
 INVARIANTS TypeOK X02_ClientCompleteIsWhole X02_ClientVerdict X02_Delivery
 CHECK_DEADLOCK FALSE
